@@ -56,7 +56,16 @@ struct Kid {
 
 fn spawn_kid() -> Kid {
     let exe = std::env::current_exe().expect("current_exe");
-    let mut child = Command::new(exe)
+    // scope-frame hook traces: one file per worker process (LIQUID_VERIF_TRACE names the common prefix)
+    static KID_NO: std::sync::atomic::AtomicUsize = std::sync::atomic::AtomicUsize::new(0);
+    let mut cmd = Command::new(exe);
+    if let Some(base) = std::env::var_os("LIQUID_VERIF_TRACE") {
+        let n = KID_NO.fetch_add(1, std::sync::atomic::Ordering::Relaxed);
+        let mut p = base;
+        p.push(format!(".{n}"));
+        cmd.env("LIQUID_VERIF_TRACE", p);
+    }
+    let mut child = cmd
         .arg("worker")
         .stdin(Stdio::piped())
         .stdout(Stdio::piped())
